@@ -3,7 +3,7 @@
    variable with name x at the index of x; `declared names e` = every variable of e is declared. *)
 From Coq Require Import List NArith Bool. Import ListNotations.
 From BddVerif Require Import Model.Bdd Model.Apply Model.Ops Model.Expr Proofs.Sem Proofs.Canon Proofs.ApplyTop
-  Proofs.ExprParse Proofs.ExprShow Proofs.ExprEval.
+  Proofs.ExprParse Proofs.ExprShow Proofs.ExprEval Model.Alias Proofs.Alias.
 Open Scope N_scope.
 
 (* eval_expression returns the (canonical) diagram of the function obtained by evaluating the tree pointwise *)
@@ -78,3 +78,18 @@ Proof.
   split; [vm_compute; reflexivity|]. split; vm_compute; reflexivity.
 Qed.
 Print Assumptions C15_nonvacuous.
+
+(* ---- eval_expression_string (Model/Alias.v: try_from(text).unwrap(), then eval_expression) *)
+Theorem C15_eval_expr_string_sem : forall names s e, parse_string s = POk e -> declared names e = true ->
+  exists r, eval_expr_string names s = Ok r /\ Canonical r /\ nvars r = nvars_of names /\
+    forall v, eval r v = esem e (env_of names v).
+Proof. exact eval_expr_string_sem. Qed.
+Print Assumptions C15_eval_expr_string_sem.
+Theorem C15_eval_expr_string_panic_iff : forall names s,
+  eval_expr_string names s = Panic <->
+  parse_string s = PErr \/ exists e, parse_string s = POk e /\ declared names e = false.
+Proof. exact eval_expr_string_panic_iff. Qed.
+Print Assumptions C15_eval_expr_string_panic_iff.
+Theorem C15_eval_expr_string_show : forall names e, safe_names e = true -> eval_expr_string names (show e) = eval_expr names e.
+Proof. exact eval_expr_string_show. Qed.
+Print Assumptions C15_eval_expr_string_show.
